@@ -30,6 +30,9 @@ func withEnv(g *gitx.Git, env ...string) *gitx.Git {
 
 func gitSide(c *vf.Ctx, g *gitx.Git) {
 	lsRemotePart(c, g)
+	if os.Getenv("C35_ONLY") == "lsremote" {
+		return
+	}
 	tmpl, commits, err := buildTemplate(c, g)
 	if err != nil {
 		c.Broken("cannot build the scratch repository for part G: %v", err)
@@ -63,7 +66,7 @@ func lsRemotePart(c *vf.Ctx, g *gitx.Git) {
 		}
 		res := withEnv(g, "C35_ADV="+f).Run(dir, "-c", "protocol.version="+ver, "ls-remote", "--symref", "--upload-pack="+stub, dir)
 		if res.Timeout || res.Code == -1 {
-			c.Inconclusive("git ls-remote did not run: %s", res)
+			c.Inconclusive("git ls-remote did not run: %s features=%v wire=%s", res, m.features, vf.Q(wire))
 			return
 		}
 		c.Count("git_lsremote_confirmations", 1)
